@@ -1,10 +1,11 @@
-"""C17 — three stages: the shared IRC-layer engine (checks/irc_common.py: lookups on every lagging prefix,
+"""C17 — four stages: the shared IRC-layer engine (checks/irc_common.py: lookups on every lagging prefix,
 ExpireSessions around the threshold, ended sessions gone), the HTTP-level stage (checks/irc_http.py: lookups,
-DELETE and "receives nothing further" on the real long polls of a complete node) and the expiry stage
-(checks/c17_expiry.py: the timer loop of main() on 1 and 3 real nodes, validated against Expiry.tla)."""
+DELETE and "receives nothing further" on the real long polls of a complete node), the expiry stage
+(checks/c17_expiry.py: the timer loop of main() on 1 and 3 real nodes, validated against Expiry.tla) and the
+lag stage (checks/c17_lag.py: what a really lagging node of a 3-node network answers, validated against Lag.tla)."""
 import json
 
-from checks import irc_common, irc_http, c17_expiry
+from checks import irc_common, irc_http, c17_expiry, c17_lag
 
 LEVEL = "model_checking"
 
@@ -20,8 +21,12 @@ def run(ctx):
     if rp.get("scenario"):
         c17_expiry.report(ctx, replay=rp["scenario"])
         return
+    if rp.get("lag_scenario"):
+        c17_lag.report(ctx, replay=rp["lag_scenario"])
+        return
     irc_common.report(ctx, "C17")
     if not getattr(ctx, "replay", None):
         irc_http.report(ctx, "C17")
         if not getattr(ctx, "selftest", False):
             c17_expiry.report(ctx)
+            c17_lag.report(ctx)
